@@ -1216,7 +1216,7 @@ func (f *Frame) readFresh(root *Root, abs Aff, n int, be bool) (AV, bool) {
 			}
 			st := f.state()
 			ba := f.useIn(bi, st, "read-back")
-			if lo, hi := ba.interval(); lo < 0 || hi > 255 {
+			if lo, hi := ba.interval(); (lo < 0 || hi > 255) && !(st.entails(atomGE(ba, affConst(0))) && st.entails(atomLE(ba, affConst(255)))) {
 				okAll = false
 				break
 			}
